@@ -77,33 +77,59 @@ def hasMulRight (n : Node) : Bool :=
     | [_, some r] => (r.name = "times" || r.name = "div") && r.children.length = 2
     | _ => false)) n
 
-def hasPostComment (n : Node) : Bool := anyNode (fun x => x.metas.any (!·.pre)) n
-def hasComment (n : Node) : Bool := anyNode (fun x => !x.metas.isEmpty) n
+def hasPreComment (n : Node) : Bool := anyNode (fun x => x.metas.any (·.pre)) n
+
+/-- (atEnd, mid): `pat` occurs at the end of a line directly behind `before` / occurs followed by more text -/
+def occurrences (pat before : Txt) : Txt → Txt → Bool × Bool → Bool × Bool
+  | [], _, acc => acc
+  | c :: cs, seenRev, acc =>
+    let here := c :: cs
+    let acc :=
+      if pat.isPrefixOf here then
+        match here.drop pat.length with
+        | [] => (acc.1 || before.reverse.isPrefixOf seenRev, acc.2)
+        | 10 :: _ => (acc.1 || before.reverse.isPrefixOf seenRev, acc.2)
+        | _ => (acc.1, true)
+      else acc
+    occurrences pat before cs (c :: seenRev) acc
+
+/-- a # comment that is NOT (attached to an identifier / number leaf and printed directly behind that
+    token at the end of a line); only such a comment is read back onto the same token -/
+def hasUnstablePost (n : Node) (txt : Txt) : Bool :=
+  anyNode (fun x => x.metas.any fun m =>
+    if m.pre then false
+    else
+      let v := trimSpace (m.val.filter (· != 10))
+      match x.tok with
+      | some t =>
+        let leaf := x.children.isEmpty && (x.name = "identifier" || x.name = "number")
+        if !leaf || v.isEmpty then true
+        else
+          let (atEnd, mid) := occurrences (s " # " ++ v) t.val txt [] (false, false)
+          !atEnd || mid
+      | none => true) n
 
 /-- (inside, ownBlank): `inside` = a blank line or a block comment in front of a token that does not
     start its statement (the printer then writes a newline inside the statement); `le` = the node's text
     starts the statement (statement position, or first-operand chain of infix nodes over atoms).
     `ownBlank` = a blank line in front of an infix operator token at the start position. -/
-partial def insideFlags (n : Node) (le : Bool) (sp : Bool := true) : Bool × Bool :=
+partial def insideFlags (n : Node) (le : Bool) (sp : Bool := true) (re : Bool := false) : Bool × Bool :=
   let isInfix := n.led != .none && n.children.length = 2
   let blank := match n.tok with | some t => decide (t.prefixNl > 1) | none => false
   let pre := n.metas.any (·.pre)
   -- a bare `return` used as an operand (`return` NEWLINE `- x` is read as `return - x`)
   let bareRet := n.name = "return" && n.children.isEmpty && !sp
-  let here := (((blank || pre) && !le) || bareRet, blank && le && isInfix)
+  -- `re` = the node's text directly follows the keyword of a return statement: the only place where the
+  -- newline written for a blank line changes what the parser reads (elsewhere it only moves on the next run)
+  let here := ((pre && !le) || (blank && !le && re) || bareRet, blank && ((le && isInfix) || (!le && !re)))
   n.children.zipIdx.foldl (fun acc (c, i) =>
     match c with
     | some c =>
       let cle := n.name = "statements" || (i = 0 && le && isInfix && c.binding = 0)
-      let r := insideFlags c cle (n.name = "statements")
+      let cre := (n.name = "return" && i = 0) || (re && i = 0 && isInfix)
+      let r := insideFlags c cle (n.name = "statements") cre
       (acc.1 || r.1, acc.2 || r.2)
     | none => acc) here
-
-/-- finding `if-true-else-duplicated`: `if true { … }` without further branches -/
-def hasIfTrue (n : Node) : Bool :=
-  anyNode (fun x => x.name = "if" && (match x.children with
-    | [some g, _] => (match g.children with | some c :: _ => c.name = "true" | _ => false)
-    | _ => false)) n
 
 /-- leftmost operand chain of a statement ends in a unary plus / minus -/
 partial def startsWithSign (n : Node) : Bool :=
@@ -114,16 +140,55 @@ partial def startsWithSign (n : Node) : Bool :=
     | _ => false
   else false
 
+/-- the printed statement starts with "(": its first-operand chain of infix nodes reaches an operand
+    that `ppNeedsBrackets` parenthesises -/
+partial def startsWithParen (n : Node) : Bool :=
+  if n.led != .none && n.children.length = 2 then
+    match n.children with
+    | some l :: _ => needsBrackets n l 0 || startsWithParen l
+    | _ => false
+  else false
+
+/-- the printed statement ends inside `ndIdentifier` (an identifier, call or composition access is its last
+    operand, unparenthesised): a following "(" is read as the start of a call, on whatever line it is -/
+partial def endsInIdentifier (n : Node) : Bool :=
+  if n.name = "identifier" then true
+  else
+    let chain := (n.led != .none && n.children.length = 2) ||
+      (n.children.length = 1 && ["plus", "minus", "not", "return", "let"].contains n.name)
+    if chain then
+      match n.children.getLast? with
+      | some (some c) => !needsBrackets n c (n.children.length - 1) && endsInIdentifier c
+      | _ => false
+    else false
+
+def pairsAny (p : Node → Node → Bool) : List (Option Node) → Bool
+  | some a :: some b :: rest => p a b || pairsAny p (some b :: rest)
+  | _ :: rest => pairsAny p rest
+  | [] => false
+
 /-- finding `stmt-starts-with-sign`: a statement other than the first of its block starts with a unary
-    + or - -/
+    + or - (read as an infix operator continuing the previous statement), or starts with "(" directly
+    after a statement that ends in an identifier / call / composition access (read as a call) -/
 def hasSignStart (n : Node) : Bool :=
   anyNode (fun x => x.name = "statements" &&
-    ((x.children.drop 1).any fun c => match c with | some c => startsWithSign c | none => false)) n
+    (((x.children.drop 1).any fun c => match c with | some c => startsWithSign c | none => false) ||
+     pairsAny (fun a b => endsInIdentifier a && startsWithParen b) x.children)) n
 
-/-- a mutex or sink statement followed by another statement (their templates end in a newline) -/
+/-- first token of a statement: follow the first operand through infix nodes -/
+partial def leftLeaf (n : Node) : Node :=
+  if n.led != .none && n.children.length = 2 then
+    match n.children with
+    | some l :: _ => leftLeaf l
+    | _ => n
+  else n
+
+/-- a mutex or sink statement followed by a statement that is not already preceded by a blank line
+    (their templates end in a newline: a blank line appears, and one more on the next run) -/
 def blockThenStatement (n : Node) : Bool :=
   anyNode (fun x => x.name = "statements" &&
-    (x.children.dropLast.any fun c => match c with | some c => c.name = "mutex" || c.name = "sink" | none => false)) n
+    pairsAny (fun a b => (a.name = "mutex" || a.name = "sink") &&
+      (match (leftLeaf b).tok with | some t => t.prefixNl ≤ 1 | none => true)) x.children) n
 
 def runCase (payload : String) : String :=
   match payload.splitOn " " with
@@ -138,9 +203,8 @@ def runCase (payload : String) : String :=
         let mul := hasMulRight ast
         let (inside, ownBlank) := insideFlags ast true
         let sign := hasSignStart ast
-        let ift := hasIfTrue ast
-        let post := hasPostComment ast || inside
-        let wild := post || ownBlank || hasComment ast || blockThenStatement ast
+        let post := hasUnstablePost ast txt || inside
+        let wild := post || ownBlank || hasPreComment ast || blockThenStatement ast
         -- cross-check of the expression-level model (the one the theorems are about)
         let (drift, xc) : Option String × Bool :=
           match Ecal.C08.toExpr ast #[] with
@@ -157,14 +221,13 @@ def runCase (payload : String) : String :=
         match drift with
         | some d => d
         | none =>
-          let rt := if post then "*" else if raw || mul || sign || ift then "diff" else "ok"
+          let rt := if post then "*" else if raw || mul || sign then "diff" else "ok"
           let idem := if wild then "*" else if sign then "diff" else "ok"
           let line (rt : String) := "txt=" ++ hexEnc txt ++ " rt=" ++ rt ++ " idem=" ++ idem ++
             (if ev = "1" && rt = "ok" then " beh=ok" else "")
           let kf : Option String :=
             if post then some "newline-inside-statement"
             else if sign then some "stmt-starts-with-sign"
-            else if ift then some "if-true-else-duplicated"
             else if raw then some "raw-string-kind"
             else if mul then some "mul-right-brackets"
             else if wild then some "layout-not-idempotent"
